@@ -262,13 +262,12 @@ def render(funs, target, kind):
                 items = "[" + ", ".join(str(i) for i in range(s[1])) + "]"
                 method = s[3]
                 if method == "sort":
-                    # a comparator is called len - 1 times for an already sorted two/three element list; keep it simple:
-                    # run the body once per element through each, then sort with an allocating comparator
-                    method = "each"
+                    # the comparator of an already sorted list of n + 1 elements (at most four) is called exactly n times
+                    items = "[" + ", ".join(str(i) for i in range(s[1] + 1)) + "]"
                 head = {"each": ".iter().each(|x| {", "map": ".iter().map(|x| {", "filter": ".iter().filter(|x| {",
-                        "reduce": ".iter().reduce(0, |acc, x| {", "all": ".iter().all(|x| {"}[method]
+                        "reduce": ".iter().reduce(0, |acc, x| {", "all": ".iter().all(|x| {", "sort": ".sort(|x, y| {"}[method]
                 tail = {"each": "})", "map": " true }).list()", "filter": " true }).list()", "reduce": " acc + 1 })",
-                        "all": " true })"}[method]
+                        "all": " true })", "sort": " x - y })"}[method]
                 out.append("%s%s%s" % (ind, items, head))
                 out += rb(s[2], ind + "  ")
                 out.append("%s%s;" % (ind, tail))
